@@ -567,9 +567,17 @@ def check_text_api(fx, rep, rule, impl):
     oks = [(st, v) for st, (k, v) in res if v[0] == "adt" and v[2] == "Ok"]
     errs = [(st, v) for st, (k, v) in res if v[0] == "adt" and v[2] == "Err"]
     ok_ret = oks and all(len(res) == len(oks) + len(errs) for _ in [0])
-    rep.check(rule, "%s/text/%s/returns" % (rule, impl), bool(ok_ret), loc=F.short_file(b["sp"]),
-              found="%d Ok path(s), %d Err path(s), %d other" % (len(oks), len(errs), len(res) - len(oks) - len(errs)),
-              expected="Ok(output) after the last line; Err only by propagating a fmt::Error", nontrivial=False)
+    # every success went through the line loop (or its try_for_each form): an Ok that returns before it answers for input it has
+    # not looked at line by line (`if self.classes.is_empty() { return Ok(input.to_owned()) }`)
+    def through_lines(st_):
+        if L.get("synthetic"):
+            return any(e_[:3] == L["synthetic"] for e_ in st_.effects if e_[0] == "call")
+        return ("loopsum", L["index"]) in st_.effects
+    early = [st_ for st_, v_ in oks if not through_lines(st_)]
+    rep.check(rule, "%s/text/%s/returns" % (rule, impl), bool(ok_ret) and not early, loc=F.short_file(b["sp"]),
+              found="%d Ok path(s), %d Err path(s), %d other; %d Ok path(s) return before the line loop%s"
+              % (len(oks), len(errs), len(res) - len(oks) - len(errs), len(early), (": when " + S.cstr(early[0].conds)[:200]) if early else ""),
+              expected="Ok(output) only after the last line was processed; Err only by propagating a fmt::Error")
     import effects as E
     uses = E.result_uses(b, r"std::fmt::Error")
     for n_, verdict, how in uses:
